@@ -4,7 +4,7 @@ SRC = ["src/kernel/activity/ActivityImpl.cpp", "src/kernel/actor/WaitTestObserve
 META = {
     "level_text": "Bounded symbolic execution of the real ActivityImpl::wait_for / wait_any_for and of the timeout callbacks they create (captured through a Timer::set stub and "
                   "fired by the harness): deadline = clock + timeout exactly, a completion at the deadline is not a timeout, otherwise the timeout is raised exactly once.",
-    "bounds": "deadline exactness: clock and timeout any double in [0,1e15] (timer not fired); firing: concrete dates, the model action is in any of its 6 states when the deadline fires; activity sets of 1..3 activities; the activity "
+    "bounds": "deadline exactness: clock and timeout any double in [0,1e15] (timer not fired); firing: concrete dates, the model action is in any of its 6 states when the deadline fires (present when the wait is armed, arriving later, or never); activity sets of 1..3 activities; the activity "
               "class is a harness subclass of ActivityImpl_T whose finish() releases its waiters (what every real finish() does last); unwind 8",
     "outside": "wait_for_or_cancel and ActivitySet (s4u compositions), the date at which the engine fires the timer (Timer::execute_all), the finish() of each concrete "
                "activity kind (exceptions built per state), the model checker path (no timeouts there)",
@@ -21,6 +21,8 @@ def queries(tier):
         qs.append(Query(name, "C12/timedwait.cpp", "harness_timedwait", defs, SRC, unwind=8, cap_s=900, mem_gb=12, prelude=["rbtree", "nostring"], no_pointer_overflow=True,
                         paths="deadline" in name))
     q("wait_for_deadline", dict(P_MODE=0))
+    q("wait_for_deadline_started_later", dict(P_MODE=0, P_LATE=1))
+    q("wait_for_deadline_never_started", dict(P_MODE=0, P_LATE=2))
     q("wait_for_date_exact", dict(P_MODE=0, P_SYMTIME=1))
     q("wait_any_for_date_exact", dict(P_MODE=2, P_N=2, P_SYMTIME=1))
     q("wait_for_already_done", dict(P_MODE=1))
